@@ -137,7 +137,7 @@ theorem vis_worker (g : Graph) (s : State) (w : Nat) : (vis g s).worker w = g.wo
   unfold Graph.worker; rw [(sameStatic_vis g s).workers]
 
 theorem vis_name (g : Graph) (s : State) (i : Nat) : ((vis g s).node i).name = (g.node i).name := by
-  obtain ⟨su, cl, h⟩ := vis_node g s i; rw [h]
+  obtain ⟨su, cl, h, _⟩ := vis_node g s i; rw [h]
 
 theorem vis_flat (g : Graph) (s : State) (i : Nat) : ((vis g s).node i).flat = (g.node i).flat :=
   (sameStatic_vis g s).flat i
@@ -155,7 +155,7 @@ theorem vis_clsName (g : Graph) (s : State) (n : Nat) (ph : Phase) : clsName (vi
   unfold clsName; rw [(sameStatic_vis g s).cls]
 
 theorem vis_dryRun (g : Graph) (s : State) (i : Nat) : ((vis g s).node i).dryRun = (g.node i).dryRun := by
-  obtain ⟨su, cl, h⟩ := vis_node g s i; rw [h]
+  obtain ⟨su, cl, h, _⟩ := vis_node g s i; rw [h]
 
 /-- the edges of the visible graph: those of the full graph between two parsed nodes -/
 theorem mem_vis_edges (g : Graph) (s : State) (b : Nat) (e : Nat × List String) :
@@ -388,7 +388,7 @@ theorem Qt.wd {w : Nat} {X : Option Nat} {s s' : State} (a : Qt w X s s') (v : N
 theorem qt_setNd (w : Nat) (X : Option Nat) (s : State) (m : Nat) (f : NodeD → NodeD)
     (hf : ∀ d, (f d).started = d.started ∨ (f d).started = none) : Qt w X s (s.setNd m f) := by
   refine ⟨rfl, rfl, nodes_length_setNd s m f, fun i => ?_⟩
-  rcases nd_setNd_cases s m f i with h | ⟨_, h⟩
+  rcases nd_setNd_cases s m f i with h | ⟨_, _, h⟩
   · rw [h]; exact Or.inl rfl
   · rw [h]
     rcases hf (s.nd i) with h' | h'
@@ -397,7 +397,7 @@ theorem qt_setNd (w : Nat) (X : Option Nat) (s : State) (m : Nat) (f : NodeD →
 
 theorem qt_enter (w : Nat) (s : State) (n : Nat) : Qt w (some n) s (s.setNd n (fun d => { d with started := some w })) := by
   refine ⟨rfl, rfl, nodes_length_setNd s n _, fun i => ?_⟩
-  rcases nd_setNd_cases s n (fun d => { d with started := some w }) i with h | ⟨h1, h⟩
+  rcases nd_setNd_cases s n (fun d => { d with started := some w }) i with h | ⟨h1, _, h⟩
   · rw [h]; exact Or.inl rfl
   · rw [h]; exact Or.inr (Or.inr ⟨by rw [h1], rfl⟩)
 
